@@ -300,6 +300,72 @@ def d1F (a b : Seq) : D1 :=
   if a.length > b.length + 1 ∨ b.length > a.length + 1 then ⟨-1, -1, 0, 0⟩
   else d1Mid a.length b.length (stripPre a b)
 
+/-! ## Structural layer of `FastLCSEGFScoreByte` (endgapfree = false): the banded matrix by rows
+
+`lo = -2·extra` and `hi = 2·(delta+extra)` are the first and the last diagonal `j - i` of the band (the cells
+`x = 0` and `x = even-1` of the even anti-diagonals of the code, which are the ones it marks out with `_setout`);
+`Sup` is replaced by `_out` on the last diagonal and `Sleft` on the first one, exactly as the tests
+`x < even-1` / `x > 0` of the code do. Same packed words, same sentinels, same selection. -/
+
+/-- cell `(i, j)` from its three neighbours; `m` = `_samenuc(bA[j-1], bB[i-1])` -/
+def bandCell (lo hi : Int) (i j : Nat) (m : Bool) (diag up left : UInt64) : UInt64 :=
+  let d : Int := (j : Int) - (i : Int)
+  let score :=
+    if i = 0 then (pick notavailV notavailV (encodeValues 0 j false)).1
+    else if j = 0 then (pick notavailV (encodeValues 0 i false) notavailV).1
+    else (pick (if m then incscore (incpath diag) else incpath diag)
+               (if d < hi then incpath up else outV)
+               (if d > lo then incpath left else outV)).1
+  if d = lo ∨ d = hi then setout score else score
+
+/-- cells `(i, j), (i, j+1), …` of row `i ≥ 1`: `left` = cell `(i, j-1)`, the last argument = row `i-1` from
+column `j-1` on -/
+def bandRowGo (lo hi : Int) (i : Nat) (y : UInt8) : Nat → UInt64 → Seq → List UInt64 → List UInt64
+  | j, left, x :: as, diag :: up :: rest =>
+    let v := bandCell lo hi i j (samenuc x y) diag up left
+    v :: bandRowGo lo hi i y (j + 1) v as (up :: rest)
+  | _, _, _, _ => []
+
+/-- row 0 from column `j` on -/
+def bandRow0 (lo hi : Int) : Nat → Seq → List UInt64
+  | j, [] => [bandCell lo hi 0 j false 0 0 0]
+  | j, _ :: as => bandCell lo hi 0 j false 0 0 0 :: bandRow0 lo hi (j + 1) as
+
+/-- row `i ≥ 1` (symbol `y = bB[i-1]`) from row `i-1` -/
+def bandRow (lo hi : Int) (A : Seq) (i : Nat) (y : UInt8) (prev : List UInt64) : List UInt64 :=
+  bandCell lo hi i 0 false 0 0 0 :: bandRowGo lo hi i y 1 (bandCell lo hi i 0 false 0 0 0) A prev
+
+/-- all rows: `i` = number of the next row, the last argument = row `i-1`; returns the last row -/
+def bandRows (lo hi : Int) (A : Seq) : Nat → Seq → List UInt64 → List UInt64
+  | _, [], prev => prev
+  | i, y :: bs, prev => bandRows lo hi A (i + 1) bs (bandRow lo hi A i y prev)
+
+/-- last row of the banded matrix of `A` (columns) against `B` (rows) -/
+def bandLast (lo hi : Int) (A B : Seq) : List UInt64 := bandRows lo hi A 1 B (bandRow0 lo hi 0 A)
+
+/-- the band of `FastLCSEGFScoreByte` for lengths `lA ≥ lB` and the bound `maxError` (`-1` = no bound):
+`none` when the difference of lengths exceeds the bound (the code returns -1 at once), else `(lo, hi)` -/
+def bandGeo (lA lB : Nat) (maxError : Int) : Option (Int × Int) :=
+  let e : Int := if maxError == -1 then 2 * (lA : Int) else maxError
+  let delta : Int := (lA : Int) - (lB : Int)
+  if delta > e then none else
+  let extra := e - delta + 1
+  some (-(2 * extra), 2 * (delta + extra))
+
+/-- `decodeValues` of the last cell; out-of-band = not found -/
+def bandResult (v : UInt64) : Option (Nat × Nat) :=
+  if (decodeValues v).2.2 then none else some ((decodeValues v).1, (decodeValues v).2.1)
+
+/-- `A` is the longer sequence -/
+def bandLCSAB (A B : Seq) (maxError : Int) : Option (Nat × Nat) :=
+  match bandGeo A.length B.length maxError with
+  | none => none
+  | some g => bandResult ((bandLast g.1 g.2 A B).getLastD 0)
+
+/-- `FastLCSScore` (endgapfree = false) on the banded matrix: `none` = (-1, -1) -/
+def bandLCS (a b : Seq) (maxError : Int) : Option (Nat × Nat) :=
+  if a.length < b.length then bandLCSAB b a maxError else bandLCSAB a b maxError
+
 /-! ## Specification level -/
 
 /-- `Ali a b s l` : there is an alignment of `a` and `b` with `l` columns of which `s` are matches
